@@ -36,7 +36,7 @@ void Runner::viol(const char *prop, const std::string &cls, const std::string &s
   static const char *const xt[] = { "stdin-corrupted", "stdin-duplicated", "stdin-lost", "no-eof-after-close", "output-corrupted", "wrong-status", "double-close", "foreign-close", "closed-stream-not-reported", "closed-error-on-open-stdin", "wrong-working-directory", "wrong-program-resolved",
                                      "environment-differs", "descriptor-inherited", "cwd-changed", "environ-changed", "stream-misconnected", "wrong-error", "signal-mask-changed",
                                      "child-mask-not-empty", "child-umask-differs", "blocks-past-bound", "wait-deadline-early", "deadline-event-early", "deadline-missed", "wait-timeout-early",
-                                     "reap-of-foreign-or-reaped", "reap-of-nonpositive-pid", "signal-to-foreign-or-reaped", "signal-to-nonpositive-pid", "no-status-for-dead-child" };
+                                     "sink-data-corrupted", "output-incomplete", "reap-of-foreign-or-reaped", "reap-of-nonpositive-pid", "signal-to-foreign-or-reaped", "signal-to-nonpositive-pid", "no-status-for-dead-child" };
   if (tpos.size() > 1 && strcmp(prop, "C20") != 0)
     for (const char *c : xt)
       if (cls == c) { viol("C20", "cross-talk-" + cls, sigrest, detail, op); break; }
@@ -286,6 +286,17 @@ void Runner::on_libcall(Thread *t, Kind k, bool child_side) {
 
 void Runner::on_preempt(Thread *t) {
   if (t->op >= 0 && t->api_depth > 0 && plan.ops[(size_t) t->op].kind == OP_START && t->ncalls[0][K_pipe] > 0 && t->ncalls[0][K_fork] == 0) probe(P_preempt_in_pipe_init);
+}
+
+// The forked child unblocks signals: from this instant a pending or arriving signal is delivered - to whatever the
+// disposition is right now.  A handler of the caller still installed would run inside the child.
+void Runner::on_child_unblock(Thread *t, Proc *c, uint64_t unblocked) {
+  if (t->op < 0) return;
+  for (int sg = 1; sg < 32; sg++) {
+    if (!(unblocked & (1ull << (sg - 1))) || c->disp[sg] != D_HANDLER) continue;
+    viol("C12", "handler-reachable-in-child", "", fmt("the forked child unblocked signal %d while the caller's handler for it was still installed", sg), t->op);
+    return;
+  }
 }
 
 void Runner::on_clock(Thread *t, int64_t msv) { octx[(size_t) t->tid].last_clock_ms = msv; }
